@@ -5,6 +5,7 @@ package main
 import (
 	"errors"
 	"fmt"
+	"math"
 	"os"
 	"strings"
 	"time"
@@ -68,6 +69,7 @@ func c17worker(arg string) {
 		c.budget = 600000 // five threads over eight clock units: preemption bound 2 needs this many schedules
 	}
 	if arg == "shared-item" {
+		c17longLifetime(c)
 		c17sharedItem(c)
 		c.st.States = len(c.states)
 		c.out.stats(*c.st)
@@ -457,4 +459,38 @@ func b2i(b bool) int {
 		return 1
 	}
 	return 0
+}
+
+// c17longLifetime: a Memoizer whose entries live for decades or centuries (up to the largest Duration):
+// a value cached now is served for the rest of the execution, with and without the cleanup goroutine.
+func c17longLifetime(c *c20ctx) {
+	for _, d := range []time.Duration{50 * 365 * 24 * time.Hour, 250 * 365 * 24 * time.Hour, math.MaxInt64 - 1, math.MaxInt64} {
+		for _, cleanup := range []time.Duration{0, 2 * unit} {
+			d, cleanup := d, cleanup
+			runs := 0
+			var viol, det string
+			c.explore(fmt.Sprintf("Memoize with a lifetime of %v (cleanup interval %v): three calls over 8 units", d, cleanup), 2, func() {
+				runs, viol, det = 0, "", ""
+				scratch := cache.New[string, int](cache.NoExpiration, 0)
+				scratch.Update("v", 7, cache.NoExpiration)
+				item, _ := scratch.Get("v")
+				n0 := vrt.ThreadCount()
+				m := gogu.NewMemoizer[string, int](d, cleanup)
+				vrt.MarkSpawnedSinceDaemon(n0)
+				for i := 0; i < 3; i++ {
+					it, err := m.Memoize("p", func() (*cache.Item[int], error) { runs++; return item, nil })
+					if (err != nil || it == nil || it.Val() != 7) && viol == "" {
+						viol, det = "Memoize/long-lifetime/wrong-result", fmt.Sprintf("call %d returned (%v, %v)", i+1, it, err)
+					}
+					vrt.Advance(4 * unit)
+					if cleanup > 0 {
+						vrt.WaitIdle()
+					}
+				}
+				if runs != 1 && viol == "" {
+					viol, det = "Memoize/long-lifetime/recomputes-although-cached", fmt.Sprintf("the function ran %d times in 12 units although the value is cached for %v", runs, d)
+				}
+			}, func(x *vrt.Exec) (string, string) { return viol, det }, func() any { return fmt.Sprint("runs=", runs) })
+		}
+	}
 }
